@@ -65,8 +65,14 @@ func genC15(rng *rand.Rand, n int, emit func(Case), dist map[string]int) {
 		var bodySeen []byte
 		var bodyErr error
 		handlerRan := false
+		echoBody := false
 		e.Any("/", func(c echo.Context) error {
 			handlerRan = true
+			if echoBody {
+				// an echo endpoint: the (decompressed) request body is streamed straight back with c.Stream
+				bodyErr = c.Stream(http.StatusCreated, "application/octet-stream", c.Request().Body)
+				return nil
+			}
 			if c.Request().Body != nil {
 				bodySeen, bodyErr = io.ReadAll(c.Request().Body)
 			}
@@ -138,8 +144,17 @@ func genC15(rng *rand.Rand, n int, emit func(Case), dist map[string]int) {
 					req.Header.Set(echo.HeaderContentEncoding, enc)
 				}
 				prog, rets, bodySeen, bodyErr, handlerRan = nil, nil, nil, nil, false
+				echoBody = rng.Intn(3) == 0
 				rec := httptest.NewRecorder()
 				e.ServeHTTP(rec, req)
+				if echoBody {
+					bodySeen = rec.Body.Bytes() // what the handler read is what it streamed back (no Accept-Encoding: sent as it is)
+					if handlerRan && bodyErr == nil && rec.Code != http.StatusCreated {
+						bodyErr = fmt.Errorf("status %d", rec.Code)
+					}
+					dist["decompress_echo_through_stream"]++
+				}
+				echoBody = false
 				ok, why := true, ""
 				want := sent
 				gunzipOK := true
